@@ -41,6 +41,39 @@ Theorem C02_msf_scaled : forall ci c0' (g:list (C R)),
   ci <> o0 K -> cnorm2 K (cdotl K g g) <> o0 K -> msf K (rscale K ci g) (rscale K c0' g) = odiv K c0' ci.
 Proof. exact (msf_scaled R K Fth). Qed.
 
+(* The function as called (tables sensors x modes in, table rows x modes out): for every global table G, every layout
+   (sensor lists, reference positions without repeats, in range, pointing at the same sensors in the same order as the
+   first setup's), every non-zero real factor per setup and per mode, and g^T g <> 0 on the reference part of every
+   mode: the call succeeds (no error) and entry [row][k] is cf0 k * G[order[row]][k] with
+   order = references in the first setup's order ++ roving of setup 0 ++ roving of setup 1 ++ ...              *)
+Theorem C02_merge_mode_shapes_spec : forall (G:nat -> nat -> C R) (nm:nat) (cf0:nat -> R) (s0 rf0:list nat) (others:list (setup_spec R)),
+  rf0 <> [] -> NoDup rf0 -> (forall i, In i rf0 -> (i < List.length s0)%nat) ->
+  (forall cf s rf, In (cf,s,rf) others ->
+     pick 0%nat s rf = pick 0%nat s0 rf0 /\ NoDup rf /\ forall i, In i rf -> (i < List.length s)%nat) ->
+  (forall k, (k < nm)%nat ->
+     cf0 k <> o0 K /\ (forall cf s rf, In (cf,s,rf) others -> cf k <> o0 K) /\
+     cnorm2 K (cdotl K (map (fun s => G s k) (pick 0%nat s0 rf0)) (map (fun s => G s k) (pick 0%nat s0 rf0))) <> o0 K) ->
+  merge_mode_shapes K (obs_mat R K G cf0 nm s0 :: map (fun t : setup_spec R => obs_mat R K G (fst (fst t)) nm (snd (fst t))) others)
+                      (rf0 :: map (fun t : setup_spec R => snd t) others)
+  = MergeOk (tab2 (List.length (order_of R s0 rf0 others)) nm
+                  (fun r k => cscal K (cf0 k) (G (nth r (order_of R s0 rf0 others) 0%nat) k))).
+Proof. exact (merge_mode_shapes_spec R K Fth). Qed.
+
+(* merged frequencies / damping for mode k over the setups (rows = one list per setup): with n the number of setups,
+   n * Fn = sum, n * var = sum (x - Fn)^2 (population variance, = mean of squares - square of mean),
+   Fn_cov^2 * Fn^2 = var, and the ddof=1 estimate is a different number whenever the values vary.             *)
+Theorem C02_poser_stats : forall (rows:list (list R)) (k:nat),
+  let n := ofnat K (List.length rows) in
+  let col := map (fun r => nth k r (o0 K)) rows in
+  let mc := nth k (poser_stats K rows) (o0 K, o0 K) in
+  (k < List.length (hd [] rows))%nat -> n <> o0 K ->
+  omul K n (fst mc) = rsum K col /\
+  omul K n (pvar K n col) = rsum K (sqdev R K (fst mc) col) /\
+  pvar K n col = osub K (odiv K (rsum K (map (fun x => omul K x x) col)) n) (omul K (fst mc) (fst mc)) /\
+  (fst mc <> o0 K -> omul K (snd mc) (omul K (fst mc) (fst mc)) = pvar K n col) /\
+  (osub K n (o1 K) <> o0 K -> pvar K n col <> o0 K -> svar R K n col <> pvar K n col).
+Proof. exact (poser_stats_spec R K Fth). Qed.
+
 (* merged frequencies / damping: results equal in every setup give that mean and zero dispersion *)
 Theorem C02_mean_var_const : forall (x n:R) (l:list R),
   n <> o0 K -> rsum K (map (fun _ => o1 K) l) = n -> (forall y, In y l -> y = x) ->
@@ -61,6 +94,8 @@ Proof. exact merged_order_length. Qed.
 Print Assumptions C02_merge_recovers_global.
 Print Assumptions C02_merge_modes_recover.
 Print Assumptions C02_msf_scaled.
+Print Assumptions C02_merge_mode_shapes_spec.
+Print Assumptions C02_poser_stats.
 Print Assumptions C02_mean_var_const.
 Print Assumptions C02_flatten_matches_merge.
 Print Assumptions C02_merged_order_length.
@@ -73,3 +108,23 @@ Example C02_example :
   = showCRow (obs Qc QcOps g (q 2 1) [2;0;1;3;4]%nat)
   /\ showQc (cnorm2 QcOps (cdotl QcOps (map g [2;0]%nat) (map g [2;0]%nat))) <> showQc (o0 QcOps).
 Proof. split; [vm_compute; reflexivity | vm_compute; discriminate]. Qed.
+
+(* the same at table level, two modes with different factors per setup and mode: the call returns Ok and the table
+   is cf0 k * G over sensors [2;0;1;3;4] *)
+Example C02_example_table :
+  let G := fun s k => nth k (nth s [[(q 1 1, q 1 2); (q 2 1, q 0 1)]; [(q (-3) 4, q 0 1); (q 1 1, q 1 1)]; [(q 2 1, q (-1) 1); (q (-1) 2, q 0 1)];
+                                     [(q 1 4, q 1 1); (q 3 1, q 0 1)]; [(q (-1) 1, q 3 2); (q 1 8, q (-1) 1)]] []) (c0 QcOps) in
+  let cf0 := fun k => nth k [q 2 1; q (-1) 4] (q 1 1) in
+  let cf1 := fun k => nth k [q (-1) 2; q 5 1] (q 1 1) in
+  match merge_mode_shapes QcOps [obs_mat Qc QcOps G cf0 2 [0;1;2]%nat; obs_mat Qc QcOps G cf1 2 [3;2;0;4]%nat] [[2;0]%nat; [1;2]%nat] with
+  | MergeOk m => showCMat m = showCMat (tab2 5 2 (fun r k => cscal QcOps (cf0 k) (G (nth r [2;0;1;3;4]%nat 0%nat) k)))
+  | _ => False
+  end.
+Proof. vm_compute. reflexivity. Qed.
+
+(* statistics on 3 setups x 2 modes: mean 2 and 5; population variance 2/3 (ddof=1 would give 1); second mode constant *)
+Example C02_example_stats :
+  map (fun mc => (showQc (fst mc), showQc (snd mc))) (poser_stats QcOps [[q 1 1; q 5 1]; [q 2 1; q 5 1]; [q 3 1; q 5 1]])
+  = [("2/1", "1/6"); ("5/1", "0/1")]%string
+  /\ showQc (pvar QcOps (q 3 1) [q 1 1; q 2 1; q 3 1]) = "2/3"%string /\ showQc (svar Qc QcOps (q 3 1) [q 1 1; q 2 1; q 3 1]) = "1/1"%string.
+Proof. vm_compute. repeat split; reflexivity. Qed.
